@@ -159,6 +159,7 @@ func (c *containerServer) handleExecveStarted(pid int) error {
 
 	// Let's register a wait event
 	c.waitPid <- pid
+	verifPoint("container.started")
 
 	var ret waitPidResult
 	select {
